@@ -203,6 +203,11 @@ func (i *interpreter) harnessIntrinsic(fn *ssa.Function) intrinsic {
 		return func(fr *frame, args []value) value { return &symStr{b: []value{opaque{}}} }
 	case "verif_go_count":
 		return func(fr *frame, args []value) value { return len(fr.i.goCalls) }
+	case "verif_drop_goroutines":
+		return func(fr *frame, args []value) value {
+			fr.i.goCalls = nil
+			return nil
+		}
 	case "verif_run_goroutines":
 		return func(fr *frame, args []value) value {
 			calls := fr.i.goCalls
